@@ -19,6 +19,19 @@ type item[T any] struct {
 	vc []uint32
 }
 
+// rslot is a receiver that is blocked on a channel: a sender that finds one hands its value
+// over directly and completes (the rendezvous of an unbuffered channel is atomic: a send clause
+// of a select commits only together with a receiver that can no longer go elsewhere).
+type rslot[T any] struct {
+	grp *group // the select statement (or plain receive) the slot belongs to
+	vc  []uint32
+	got bool
+	it  item[T]
+}
+
+// group ties the receive clauses of one blocked select together: only one of them may be served.
+type group struct{ done bool }
+
 // Chan is a simulated channel.
 type Chan[T any] struct {
 	gen     uint64
@@ -31,7 +44,7 @@ type Chan[T any] struct {
 	closed  bool
 	closeVC []uint32
 	recvVC  []uint32
-	recvW   int // tasks blocked receiving (for select send-readiness on unbuffered channels)
+	rq      []*rslot[T] // blocked receivers (plain receives and receive clauses of blocked selects), oldest first
 	selV    T
 	selOK   bool
 	plain   []T
@@ -55,7 +68,7 @@ func (c *Chan[T]) sync(s *sched.Sim) {
 		c.taken = false
 		c.takenVC = nil
 		c.closed = false
-		c.recvW = 0
+		c.rq = nil
 		c.closeVC = nil
 		c.recvVC = make([]uint32, s.NumTasks())
 	}
@@ -63,7 +76,10 @@ func (c *Chan[T]) sync(s *sched.Sim) {
 
 type sendWait[T any] struct{ c *Chan[T] }
 type handWait[T any] struct{ c *Chan[T] }
-type recvWait[T any] struct{ c *Chan[T] }
+type recvWait[T any] struct {
+	c    *Chan[T]
+	slot *rslot[T]
+}
 type forever struct{}
 
 func (w sendWait[T]) Free(t *sched.Task) bool {
@@ -80,7 +96,7 @@ func (w handWait[T]) Free(t *sched.Task) bool { return w.c.taken || w.c.closed }
 func (w handWait[T]) Name() string {
 	return fmt.Sprintf("chan#%d (send, waiting for a receiver)", w.c.id)
 }
-func (w recvWait[T]) Free(t *sched.Task) bool { return w.c.recvReady() }
+func (w recvWait[T]) Free(t *sched.Task) bool { return w.slot.got || w.c.recvReady() }
 func (w recvWait[T]) Name() string            { return fmt.Sprintf("chan#%d (receive)", w.c.id) }
 func (forever) Free(t *sched.Task) bool       { return false }
 func (forever) Name() string                  { return "nil channel / empty select (blocks forever)" }
@@ -94,7 +110,44 @@ func (c *Chan[T]) sendReady() bool {
 	if c.capa > 0 {
 		return len(c.buf) < c.capa
 	}
-	return c.hand == nil && c.recvW > 0
+	return c.hand == nil && c.waiting() != nil
+}
+
+// waiting returns the oldest blocked receiver that can still be served, dropping stale entries.
+func (c *Chan[T]) waiting() *rslot[T] {
+	for len(c.rq) > 0 {
+		if sl := c.rq[0]; !sl.got && !sl.grp.done {
+			return sl
+		}
+		c.rq = c.rq[1:]
+	}
+	return nil
+}
+
+func (c *Chan[T]) enqueue(s *sched.Sim, g *group) *rslot[T] {
+	sl := &rslot[T]{grp: g, vc: append([]uint32(nil), s.CurTask().VC...)}
+	c.rq = append(c.rq, sl)
+	return sl
+}
+
+func (c *Chan[T]) dequeue(sl *rslot[T]) {
+	for i, x := range c.rq {
+		if x == sl {
+			c.rq = append(c.rq[:i], c.rq[i+1:]...)
+			return
+		}
+	}
+}
+
+// accept completes a receive whose value was handed over by a sender while the receiver was blocked.
+func (c *Chan[T]) accept(s *sched.Sim, sl *rslot[T]) (T, bool) {
+	me := s.CurTask()
+	if sl.it.vc != nil {
+		sched.JoinVC(me.VC, sl.it.vc)
+	}
+	sched.JoinVC(c.recvVC, me.VC)
+	me.VC[me.ID]++
+	return sl.it.v, true
 }
 
 // Send is `c <- v`.
@@ -135,6 +188,14 @@ func (c *Chan[T]) doSend(s *sched.Sim, v T) {
 	me.VC[me.ID]++
 	if c.capa > 0 {
 		c.buf = append(c.buf, it)
+		return
+	}
+	if sl := c.waiting(); sl != nil && c.hand == nil {
+		// a receiver is blocked on this channel: hand the value over and complete. The receive is
+		// synchronized before the completion of the send: join what the receiver knew when it blocked
+		sl.it, sl.got, sl.grp.done = it, true, true
+		c.rq = c.rq[1:]
+		sched.JoinVC(me.VC, sl.vc)
 		return
 	}
 	c.hand = &it
@@ -198,11 +259,17 @@ func (c *Chan[T]) Recv2() (v T, ok bool) {
 	if s.Aborted() {
 		return v, false
 	}
-	c.recvW++
-	s.BlockOn(recvWait[T]{c}, c.id)
-	c.recvW--
+	if c.recvReady() {
+		return c.doRecv(s)
+	}
+	sl := c.enqueue(s, &group{})
+	s.BlockOn(recvWait[T]{c, sl}, c.id)
+	c.dequeue(sl)
 	if s.Aborted() {
 		return v, false
+	}
+	if sl.got {
+		return c.accept(s, sl)
 	}
 	return c.doRecv(s)
 }
@@ -298,7 +365,9 @@ type Case struct {
 	nilCh     bool
 	unbufSend bool
 	prep      func(s *sched.Sim)
-	wait      func(d int)
+	enq       func(s *sched.Sim, g *group) // receive clause: register as a blocked receiver
+	deq       func()
+	served    func(s *sched.Sim) bool // receive clause: was a value handed over while blocked? then take it
 }
 
 // RecvCase is `case ... <-c`.
@@ -306,11 +375,24 @@ func RecvCase[T any](c *Chan[T]) Case {
 	if c == nil {
 		return Case{nilCh: true}
 	}
+	var sl *rslot[T]
 	return Case{
 		prep:  func(s *sched.Sim) { c.sync(s) },
-		ready: c.recvReady,
+		ready: func() bool { return (sl != nil && sl.got) || c.recvReady() },
 		do:    func(s *sched.Sim) { c.selV, c.selOK = c.doRecv(s) },
-		wait:  func(d int) { c.recvW += d },
+		enq:   func(s *sched.Sim, g *group) { sl = c.enqueue(s, g) },
+		deq: func() {
+			if sl != nil {
+				c.dequeue(sl)
+			}
+		},
+		served: func(s *sched.Sim) bool {
+			if sl == nil || !sl.got {
+				return false
+			}
+			c.selV, c.selOK = c.accept(s, sl)
+			return true
+		},
 	}
 }
 
@@ -371,11 +453,12 @@ func Select(hasDefault bool, cases ...Case) int {
 			return -1
 		}
 		live := false
+		g := &group{}
 		for _, c := range cases {
 			if !c.nilCh {
 				live = true
-				if c.wait != nil {
-					c.wait(1)
+				if c.enq != nil {
+					c.enq(s, g)
 				}
 			}
 		}
@@ -384,13 +467,21 @@ func Select(hasDefault bool, cases ...Case) int {
 			return -1
 		}
 		s.BlockOn(selWait{cases}, 0)
+		g.done = true // whatever happens next, nobody else may serve this select any more
 		for _, c := range cases {
-			if !c.nilCh && c.wait != nil {
-				c.wait(-1)
+			if !c.nilCh && c.deq != nil {
+				c.deq()
 			}
 		}
 		if s.Aborted() {
 			return -1
+		}
+		// a sender handed a value to one of the receive clauses while this task was blocked: that
+		// clause is the one that ran (the sender has already completed)
+		for i, c := range cases {
+			if !c.nilCh && c.served != nil && c.served(s) {
+				return i
+			}
 		}
 	}
 }
